@@ -125,7 +125,7 @@ def do_harmless(ids, props=None):
         if not os.path.exists(os.path.join(d, 'patch.diff')):
             continue
         old = json.load(open(os.path.join(d, 'result.json'))) if os.path.exists(os.path.join(d, 'result.json')) else {}
-        wt = scratch('h-' + sid[:3])
+        wt = scratch('h-%d-' % os.getpid() + sid.split('_')[0])
         out = dict(name=sid, behaviour_preserving=True, tests=old.get('tests', ''), checks=dict(old.get('checks', {})) if props else {})
         try:
             a = sh(['git', '-C', wt, 'apply', os.path.join(d, 'patch.diff')])
